@@ -2,6 +2,7 @@ package rules
 
 import (
 	"fmt"
+	"go/token"
 	"go/types"
 	"sort"
 	"strings"
@@ -286,9 +287,37 @@ func errorSurelyNonNil(v ssa.Value, site ssa.Instruction, fn *ssa.Function) bool
 	}
 	x, _ := an.Cut(an.CutQuery{From: an.Entry(fn), Target: func(i ssa.Instruction) bool { return i == site },
 		AcceptEdge: func(b *ssa.BasicBlock, i int, a *an.Atom) bool {
-			return a != nil && a.Op == "!=" && ((a.LV == e && isNilConst(a.RV)) || (a.RV == e && isNilConst(a.LV)))
+			return a != nil && a.Op == "!=" && ((sameFieldLoadIn(a.LV, e, fn) && isNilConst(a.RV)) || (sameFieldLoadIn(a.RV, e, fn) && isNilConst(a.LV)))
 		}})
 	return x == nil
+}
+
+// sameFieldLoadIn: a and b are the same value, or two loads of one field of one object that fn never stores to (go/ssa does
+// not merge repeated loads: `if o.err != nil { return wrap(o.err) }` reads the field twice).
+func sameFieldLoadIn(a, b ssa.Value, fn *ssa.Function) bool {
+	if a == b {
+		return true
+	}
+	ua, ok1 := a.(*ssa.UnOp)
+	ub, ok2 := b.(*ssa.UnOp)
+	if !ok1 || !ok2 || ua.Op != token.MUL || ub.Op != token.MUL {
+		return false
+	}
+	fa, ok1 := ua.X.(*ssa.FieldAddr)
+	fb, ok2 := ub.X.(*ssa.FieldAddr)
+	if !ok1 || !ok2 || fa.X != fb.X || fa.Field != fb.Field {
+		return false
+	}
+	for _, blk := range fn.Blocks {
+		for _, ins := range blk.Instrs {
+			if st, ok := ins.(*ssa.Store); ok {
+				if sa, ok := st.Addr.(*ssa.FieldAddr); ok && sa.Field == fa.Field && types.Identical(sa.X.Type(), fa.X.Type()) {
+					return false
+				}
+			}
+		}
+	}
+	return true
 }
 
 // helperEstablishes: atom a is the K-result of a helper that received (as argument accepted by matchArg) the object of
